@@ -183,9 +183,13 @@ def check(run):
     for n in walk_local(reps.node):
         if isinstance(n, ast.Call) and isinstance(n.func, ast.Attribute) and n.func.attr == "makeParser":
             g = guards(n, reps)
-            ok = "responder.ended" in g and "requestant.persisted" in g
+            # ... and only when no parser is running: re-creating the parser of a request that is being received (its head already consumed
+            # from the buffer) restarts parsing in the middle of the message
+            ok = "responder.ended" in g and "requestant.persisted" in g and "requestant.parser is None" in g
             run.ob("C18.R3", "%s:next-request-after-response-ended" % reps.fq, ok, run.site(reps, n),
-                   "" if ok else "the next pipelined request is parsed before the response ended / on a non persistent connection (guards: %s)" % g)
+                   "" if ok else "the request parser is (re)created under guards %s; it must be created only after the response ended, on a persistent connection, "
+                   "and only when no parser is running (`requestant.parser is None`): otherwise a request that arrives over several service passes "
+                   "has its parser closed and restarted in mid-message" % g)
         if isinstance(n, ast.Call) and is_self_call(n, "closeConnection"):
             g = guards(n, reps)
             if "responder.ended" in g:
